@@ -399,7 +399,13 @@ def c10_shapes(shape: int, mx: int, my: int, m2: int, bx: bool, by: bool, b2: bo
   if shape == 0:
     # reqkw(a, **kw): REQUIRED passed for names that only **kwargs can take;
     # keyword order y-then-x when m2 is odd (leftover order = caller's order)
-    if bx: gin.bind_parameter('vw.reqkw.x', vx)
+    # m2 >= 2 (round f): the binding for x is the %gin.REQUIRED marker (config text), so x can be collected both by
+    # the scan for bindings still equal to the marker and by the caller's own marker - it is still ONE name
+    req_bind_x = bx and m2 >= 2
+    if req_bind_x:
+      with rt.native():
+        gin.parse_config('vw.reqkw.x = %gin.REQUIRED')
+    elif bx: gin.bind_parameter('vw.reqkw.x', vx)
     if by: gin.bind_parameter('vw.reqkw.y', vy)
     items = []
     if mx == 1: items.append(('x', R))
@@ -409,7 +415,9 @@ def c10_shapes(shape: int, mx: int, my: int, m2: int, bx: bool, by: bool, b2: bo
     if m2 % 2:
       items.reverse()
     kw = dict(items)
-    missing = [k for k, v in items if v is R and not {'x': bx, 'y': by}[k]]
+    missing = [k for k, v in items if v is R and not {'x': bx and not req_bind_x, 'y': by}[k]]
+    if req_bind_x and mx == 0:
+      missing.append('x')     # nobody fills the marker binding
     try:
       world.reqkw(ca, **kw)
     except Exception as e:
@@ -419,6 +427,10 @@ def c10_shapes(shape: int, mx: int, my: int, m2: int, bx: bool, by: bool, b2: bo
         return False
       head, names = _parse_missing(str(exc))
       with rt.native():
+        if req_bind_x:
+          # the position of a name that only a marker BINDING contributes is not fixed by the statement
+          # (it is no parameter of the signature): each unfilled name exactly once, in any order
+          return sorted(_listed(names)) == sorted(missing) and _names_cfg(head, 'vw.reqkw')
         return _listed(names) == list(missing) and _names_cfg(head, 'vw.reqkw')
     if exc is not None or len(world.LOG) != 1:
       return False
